@@ -62,6 +62,7 @@ def gen_case(ctx):
             'N_sigma': rng.choice([1.0, 1.0] + pv), 'fft': rng.random() < 0.5,
             'how': rng.choice(['arg', 'dict', 'global']),
             'cov': rng.choice([None, None, 1, 2])}
+    case['alias'] = (len(reps) + sum(len(r['samples']) for r in reps)) % 4 == 0     # use `Obs.gm` instead of `Obs.gamma_method` (no extra random draw)
     return case
 
 
@@ -101,7 +102,8 @@ def run_impl(case, o):
         pe.Obs.tau_exp_global = case['tau_exp']
         pe.Obs.N_sigma_global = case['N_sigma']
     try:
-        o.gamma_method(fft=case['fft'], **kw)
+        # `gm` is the documented short form of `gamma_method`: both entry points are exercised
+        (o.gm if case.get('alias') else o.gamma_method)(fft=case['fft'], **kw)
     except Exception as e:
         reset_globals()
         return {'exc': type(e).__name__ + ': ' + str(e)[:80]}
